@@ -19,7 +19,7 @@ SPEC = dict(
           "regimes present, final-newline variants, BOM?, non-ASCII?, control chars?, pattern kinds, locale) tuples"),
     assumptions=["filler contains no digits/upper-case letters (they could extend a version or form a part name); "
                  "R1 proves every layout unambiguous before the real code runs"],
-    required=["glob_extra_cases", "own_line_cases", "matched_text_repeated_on_the_line", "updates_checked", "eol:LF", "eol:CRLF", "eol:CR", "eol:mixed", "locale_subprocess_runs", "bom_files",
+    required=["glob_extra_cases", "symlinked_directory_cases", "own_line_cases", "matched_text_repeated_on_the_line", "updates_checked", "eol:LF", "eol:CRLF", "eol:CR", "eol:mixed", "locale_subprocess_runs", "bom_files",
               "unconfigured_files_checked", "k04_evaluations", "no_final_newline_files", "legacy_updates_checked",
               "overlap_cases"],
     anchors=[("rewrite", "detect_line_sep"), ("v2rewrite", "rfd_from_content"), ("v2rewrite", "rewrite_files"),
@@ -70,6 +70,14 @@ def cases(ctx):
                     if ctx.mine(k):
                         yield {"kind": "own-line", "o": oi, "variant": vi, "fmt": fmt, "rep": rep}
                     k += 1
+    # "Files not named in the configuration are never written": a key that reaches its file through a symlinked
+    # directory followed by `..` names the file the OS resolves, not the one a textual clean-up of the key would
+    for rep in range(reps):
+        for oi in range(len(OVERLAP)):
+            for variant in range(3):
+                if ctx.mine(k):
+                    yield {"kind": "symlinked-dir", "o": oi, "variant": variant, "rep": rep}
+                k += 1
     n = ctx.size(1600, 40000)
     nsub = ctx.size(48, 2400)
     for i in range(n):
@@ -159,6 +167,49 @@ def run_glob_extra(ctx, case):
                 break
     finally:
         harness.rm_dir(d)
+
+
+def run_symlinked_dir(ctx, case):
+    import os
+    vp, cur, uargs, new = OVERLAP[case["o"]]
+    d = harness.new_project({"bumpver.toml": b""})
+    outside = d + ".ext"
+    try:
+        v = case["variant"]
+        if v == 0:      # docs -> releases/v2/docs, key docs/../VERSION = releases/v2/VERSION
+            os.makedirs(os.path.join(d, "releases/v2/docs"))
+            os.symlink("releases/v2/docs", os.path.join(d, "docs"))
+            key, named = "docs/../VERSION", os.path.join(d, "releases/v2/VERSION")
+        elif v == 1:    # the link points out of the project
+            os.makedirs(os.path.join(outside, "sub"))
+            os.symlink(os.path.join(outside, "sub"), os.path.join(d, "ext"))
+            key, named = "ext/../VERSION", os.path.join(outside, "VERSION")
+        else:           # two levels
+            os.makedirs(os.path.join(d, "a/b/c"))
+            os.symlink("a/b/c", os.path.join(d, "cur"))
+            key, named = "./cur/../../VERSION", os.path.join(d, "a/VERSION")
+        text = f"VER={cur}\nkeep\n"
+        with open(named, "w") as f:
+            f.write(text)
+        with open(os.path.join(d, "VERSION"), "w") as f:     # named nowhere
+            f.write(text)
+        with open(os.path.join(d, "bumpver.toml"), "w") as f:
+            f.write(f'[bumpver]\ncurrent_version = "{cur}"\nversion_pattern = "{vp}"\n\n[bumpver.file_patterns]\n'
+                    '"bumpver.toml" = [\'current_version = "{version}"\']\n' + f'"{key}" = ["VER={{version}}"]\n')
+        res = harness.invoke(["update", "--no-fetch"] + uargs, cwd=d)
+        unnamed_after = open(os.path.join(d, "VERSION")).read()
+        named_after = open(named).read()
+        ctx.count("symlinked_directory_cases")
+        ctx.evaluated(("symlinked-dir", vp, v), sample={"key": key, "argv": res.args, "exit": res.exit_code})
+        if unnamed_after != text:
+            ctx.violation("other:file_not_named_in_the_configuration_written", f"key {key!r} names {named!r} (through a symlinked "
+                          f"directory); ./VERSION, which no key names, was rewritten to {unnamed_after!r} (exit {res.exit_code}; the "
+                          f"named file reads {named_after!r})", case=case)
+        elif res.exit_code == 0 and named_after != text.replace(cur, new):
+            ctx.violation("other:named_file_not_rewritten", f"key {key!r}: exit 0 but {named!r} reads {named_after!r}", case=case)
+    finally:
+        harness.rm_dir(d)
+        harness.rm_dir(outside)
 
 
 OWN_LINE_VARIANTS = [
@@ -257,6 +308,8 @@ def run_case(ctx, case):
         return run_overlap(ctx, case)
     if case.get("kind") == "glob-extra":
         return run_glob_extra(ctx, case)
+    if case.get("kind") == "symlinked-dir":
+        return run_symlinked_dir(ctx, case)
     if case.get("kind") == "own-line":
         return run_own_line(ctx, case)
     R = random.Random(case["pseed"])
